@@ -58,7 +58,9 @@ class Gen:
         self.tag("]")
 
     def stmt(self, depth):
-        c = self.r.below(14 if depth > 0 else 7)
+        c = self.r.below(16 if depth > 0 else 9)
+        if depth > 0 and c >= 7:
+            c = c if c >= 9 else self.r.below(9)
         if c <= 2:
             self.count("assign")
             self.tag("SA"); self.tag("A"); self.w(self.name()); self.w(self.r.choice(ASSIGN)); self.ex()
@@ -74,7 +76,14 @@ class Gen:
         elif c == 6:
             self.count("lvar")
             self.tag("SV"); self.w("var"); self.w(self.r.choice(NAMES)); self.w(":"); self.w(self.r.choice(TYPES))
-        elif c in (7, 8):
+            self.absolute()
+        elif c == 7:
+            self.count("uses-stmt")
+            self.tag("SS"); self.uses()
+        elif c == 8:
+            self.count("const-stmt")
+            self.tag("SK"); self.const()
+        elif c in (9, 10):
             self.count("if")
             self.tag("SI"); self.w("if"); self.ex(); self.stmts(depth - 1)
             for _ in range(self.r.below(3)):
@@ -85,13 +94,13 @@ class Gen:
                 self.tag("TL"); self.w("else"); self.stmts(depth - 1); self.w("endif")
             else:
                 self.tag("TE"); self.w("endif")
-        elif c == 9:
+        elif c == 11:
             self.count("while")
             self.tag("SW"); self.w("while"); self.ex(); self.stmts(depth - 1); self.w("endwhile")
-        elif c == 10:
+        elif c == 12:
             self.count("loop")
             self.tag("SL"); self.w("loop"); self.stmts(depth - 1); self.w("endloop")
-        elif c == 11:
+        elif c == 13:
             self.count("foreach")
             self.tag("SX"); self.w("foreach")
             if self.r.chance(2, 3):
@@ -103,7 +112,7 @@ class Gen:
             self.stmts(depth - 1); self.w("endfor")
             if self.words[at].lower() == "using":      # `using` right after the header belongs to the header
                 self.words[at] = "tmp"
-        elif c == 12:
+        elif c == 14:
             self.count("repeat")
             self.tag("SU"); self.w("repeat"); self.stmts(depth - 1); self.w("until"); self.ex()
         else:
@@ -116,6 +125,28 @@ class Gen:
             else:
                 self.tag("-")
             self.stmts(depth - 1); self.w("endfor")
+
+    # ---- pieces shared by statements and declarations ---------------------------------------
+    def absolute(self):
+        if self.r.chance(1, 4):
+            self.count("absolute")
+            self.tag("+"); self.w("absolute"); self.w(self.name())
+        else:
+            self.tag("-")
+
+    def uses(self):
+        self.w("uses"); self.w(self.r.choice(NAMES))
+        for _ in range(self.r.below(3)):
+            self.tag(","); self.w(","); self.w(self.r.choice(NAMES))
+        self.tag(".")
+
+    def const(self):
+        self.w("const"); self.w(self.r.choice(NAMES)); self.w("="); self.w(self.r.choice(["12", "3.5", "'s t'", "''"]))
+        if self.r.chance(1, 4):
+            self.count("multilang")
+            self.tag("+"); self.w("multiLang")
+        else:
+            self.tag("-")
 
     # ---- declarations ----------------------------------------------------------------------
     def param(self):
@@ -172,7 +203,15 @@ class Gen:
             self.tag("-")
 
     def decl(self, depth):
-        c = self.r.below(8)
+        c = self.r.below(10)
+        if c == 8:
+            self.count("module")
+            self.tag("DM"); self.w("module"); self.w("aMod")
+            return
+        if c == 9:
+            self.count("uses")
+            self.tag("DU"); self.uses()
+            return
         if c <= 2:
             self.count("proc")
             self.tag("DP"); self.w("proc"); self.mname(); self.params(); self.body(self.mods(), depth, "endproc")
@@ -182,10 +221,22 @@ class Gen:
             self.body(self.mods(), depth, "endfunc")
         elif c == 5:
             self.count("const")
-            self.tag("DC"); self.w("const"); self.w(self.r.choice(NAMES)); self.w("="); self.w(self.r.choice(["12", "3.5", "'s t'", "''"]))
+            self.tag("DC"); self.const()
         elif c == 6:
             self.count("field")
-            self.tag("DV"); self.w(self.r.choice(NAMES)); self.w(":"); self.w(self.r.choice(TYPES))
+            self.tag("DV")
+            if self.r.chance(1, 5):
+                self.count("memory")
+                self.tag("+"); self.w("memory")
+            else:
+                self.tag("-")
+            self.w(self.r.choice(NAMES)); self.w(":"); self.w(self.r.choice(TYPES))
+            self.tag("{")
+            for _ in range(self.r.choice([0, 0, 0, 1, 2])):
+                self.count("field-modifier")
+                self.w(self.r.choice(["private", "protected", "final", "override"]))
+            self.tag("}")
+            self.absolute()
         else:
             self.count("class")
             if self.r.chance(1, 2):
